@@ -5,6 +5,7 @@ import os
 
 import h5py
 import numpy as np
+import pandas as pd
 
 from .. import gen, h5state, model, probes
 
@@ -106,6 +107,24 @@ def one_file(ctx, cid, rng, idx):
     if per_cell_bins:
         # the two dictionaries are keyed by EQUAL strings that are separately built objects (as when parsed from paths)
         bins_arg = {"".join(list(keyof[nm])): b for nm, b in bins_arg.items()}
+        if rng.random() < 0.5:
+            # the per-cell tables agree value for value but not in representation (as tables from different sources
+            # do): categorical vs plain chromosome column, int32 vs int64 coordinates, a non-default row index
+            reps = {}
+            for j_, (kk_, b_) in enumerate(bins_arg.items()):
+                b_ = b_.copy()
+                v_ = (j_ + int(rng.integers(4))) % 4
+                if v_ == 1:
+                    b_["chrom"] = pd.Categorical(b_["chrom"].astype(str), categories=[nm_ for nm_, _ in bt], ordered=True)
+                elif v_ == 2:
+                    b_ = b_.astype({"start": np.int32, "end": np.int32})
+                elif v_ == 3:
+                    b_ = b_.set_axis(np.arange(len(b_)) + 5, axis=0)
+                reps[kk_] = b_
+            bins_arg = reps
+            c_feat_reps = True
+        else:
+            c_feat_reps = False
     ens = bool(rng.random() < 0.3)          # ensure_sorted=True: cell tables may then come in any row order
     pix_arg = {}
     for nm, P in cells.items():
@@ -127,6 +146,8 @@ def one_file(ctx, cid, rng, idx):
     desc = {"bt": bt, "symm": symm, "cells": {nm: sorted((a, b, v) for (a, b), v in P.items())[:40] for nm, P in cells.items()},
             "per_cell_bins": per_cell_bins, "ordered": ordered}
     with ctx.case(cid, desc) as c:
+        if per_cell_bins and c_feat_reps:
+            c.feature("bins:per-cell:tables-differ-in-representation")
         c.feature("bins:per-cell" if per_cell_bins else "bins:common", f"mode:{'symm' if symm else 'square'}",
                   f"cells:{ncell}" if ncell == 1 else "cells:many", "create:ordered" if ordered else "create:ordered-false-flag",
                   f"family:{fam}")
